@@ -2,8 +2,11 @@
    dataset).  Only Checks, small Examples showing non-vacuity, and Print Assumptions. *)
 From Coq Require Import Permutation.
 From Sophia.Common Require Import Prelude.
+From Sophia.Common Require Import Term.
 From Sophia.C04 Require Import Regex Grammar Model AtomsProofs PreFix Proofs.
-From Sophia.C04 Require Lang Incl.
+From Sophia.C04 Require Import TermGrammar TermRead TermText TermProofs.
+From Sophia.C04 Require Lang Incl TermShapes.
+From Sophia.C09 Require Model.
 
 (* ===== (1) the regenerated regular expressions stay inside the Turtle grammar ===== *)
 (* decided by `ka` on the atom level for every Kleene algebra, transported to words over code points *)
@@ -107,6 +110,91 @@ Example plan_example :
   plan_ok ex_ks 7 9 8 10 ex_quads [1] 1 1 = true.
 Proof. vm_compute. repeat split; reflexivity. Qed.
 
+(* ===== (6) the TEXT of a term: what write_term / write_non_list_term spell is read back, by a reader written from
+         the W3C grammar, as the same term -- for all terms, prefix maps, answers of the IRI test, continuations ===== *)
+(* the tokeniser: the longest-match rule, once and for all regular expressions *)
+Check (longest_ok : forall r w rest, matchb r w = true ->
+  (forall u v, rest = u ++ v -> u <> [] -> matchb r (w ++ u) = false) -> longest r (w ++ rest) = Some (w, rest)).
+Check (longest_none : forall r l, (forall u v, l = u ++ v -> matchb r u = false) -> longest r l = None).
+(* letters of the words of the token productions, decided by `ka` (TermShapes.v) *)
+Check (TermShapes.pname_esc10 : forall w, matchb PNAME w = true ->
+  TermShapes.all_in cls_not10 w \/
+  exists x e y, w = x ++ 92 :: e :: y /\ TermShapes.all_in cls_not10 x /\ inr e cls_a10 = true).
+Check (TermShapes.pname_enddot : forall w, matchb PNAME w = true ->
+  (exists z x, w = z ++ [x] /\ inr x cls_notdot = true) \/ exists z, w = z ++ [92; 46]).
+Check (TermShapes.pname_colon : forall w, matchb PNAME w = true ->
+  exists x y, w = x ++ 58 :: y /\ TermShapes.all_in cls_pfx x).
+Check (TermShapes.boolean_words : forall w, matchb BOOLEAN w = true -> w = [116; 114; 117; 101] \/ w = [102; 97; 108; 115; 101]).
+(* tokens are cut where the writer ended them, before every admissible continuation *)
+Check (numeric_cut : forall w rest, matchb NUMERIC w = true -> stop_ok rest = true -> longest NUMERIC (w ++ rest) = Some (w, rest)).
+Check (label_cut : forall w rest, matchb BNODE_BODY w = true -> stop_ok rest = true -> longest BNODE_BODY (w ++ rest) = Some (w, rest)).
+Check (pname_cut : forall tok rest, matchb PNAME_noesc tok = true -> stop_ok rest = true -> longest PNAME (tok ++ rest) = Some (tok, rest)).
+Check (keyword_not_pname : forall pm kw rest, TermShapes.all_in cls_pfx kw -> stop_ok rest = true -> read_pname pm (kw ++ rest) = None).
+Check (read_pname_ok : forall pm pre n suf rest,
+  pm_ok pm = true -> In (pre, n) pm -> matchb PN_LOCAL_noesc suf = true -> stop_ok rest = true ->
+  read_pname pm ((pre ++ [58] ++ suf) ++ rest) = Some (n ++ suf, rest)).
+(* IRIs (both spellings of write_plain_iri), bare and quoted literals *)
+Check (read_plain_iri : forall absf pm i rest, pm_ok pm = true -> iri_ok i = true -> stop_ok rest = true ->
+  read_iri pm (wt_plain_iri absf pm i ++ rest) = Some (i, rest)).
+Check (read_bare : forall pm lex dt p f rest, bare_literal dt lex = true -> allows_lit p = true -> stop_ok rest = true ->
+  read_at (S f) p pm (lex ++ rest) = Some (LitDt lex dt, rest)).
+Check (read_literal_dt : forall absf pm lex dt rest, pm_ok pm = true -> iri_ok dt = true -> stop_ok rest = true ->
+  read_rdf_literal pm ((qs_cp lex ++ [34] ++
+     (if negb (str_eqb xsd_string dt) then [94; 94] ++ wt_plain_iri absf pm dt else [])) ++ rest) = Some (LitDt lex dt, rest)).
+Check (read_literal_lang : forall pm lex tag rest, langtag_ok tag = true -> stop_ok rest = true ->
+  read_rdf_literal pm ((qs_cp lex ++ [34] ++ [64] ++ tag) ++ rest) = Some (LitLang lex tag, rest)).
+(* THE TERM THEOREM, at every position, quoted triples of any depth *)
+Check (read_wt : forall absf pm, pm_ok pm = true -> forall t p fuel rest,
+  wf_at p t = true -> stop_ok rest = true -> (depth t < fuel)%nat ->
+  read_at fuel p pm (wt_at absf pm p t ++ rest) = Some (t, rest)).
+Check (read_term_write_term : forall absf pm t rest, pm_ok pm = true -> wf_at TObj t = true -> stop_ok rest = true ->
+  read_term pm (wt_term absf pm t ++ rest) = Some (t, rest)).
+Check (term_roundtrip : forall absf pm t rest, pm_ok pm = true -> wf_at TObj t = true -> stop_ok rest = true ->
+  exists t', read_term pm (wt_term absf pm t ++ rest) = Some (t', rest) /\ term_eqb t' t = true).
+(* bytes: the writer of TermText.v Part 1 is the UTF-8 encoding of the code-point writer; round trip on bytes *)
+Check (wr_term_utf8 : forall absf pm t, wr_term absf pm t = utf8 (wt_term absf pm t)).
+Check (read_bytes_write_term : forall absf pm t rest,
+  pm_ok pm = true -> scalar_pm pm = true -> wf_at TObj t = true -> scalar_term t = true ->
+  stop_ok rest = true -> scalar_str rest = true ->
+  read_term_bytes pm (wr_term absf pm t ++ utf8 rest) = Some (t, rest)).
+(* outside the hypotheses *)
+Check (variable_rejected : forall absf pm v fuel p rest, read_at fuel p pm (wt_term absf pm (Var v) ++ rest) = None).
+Check (duplicate_prefix_refuted : exists pm t rest,
+  forallb (fun e => prefix_ok (fst e)) pm = true /\ wf_at TObj t = true /\ stop_ok rest = true /\
+  read_term pm (wt_term always pm t ++ rest) <> Some (t, rest)).
+Check (unchecked_iri_refuted : exists t rest, stop_ok rest = true /\ read_term [] (wt_term always [] t ++ rest) <> Some (t, rest)).
+Check (checked_langtag_refuted : exists t rest, t = LitLang [120] [97; 49] /\ sophia_langtag_ok [97; 49] = true /\ stop_ok rest = true /\
+  read_term [] (wt_term always [] t ++ rest) <> Some (t, rest)).
+Check (langtag_sophia : forall tag, langtag_ok tag = true -> sophia_langtag_ok tag = true).
+Check (bad_continuation_refuted : exists t rest, wf_at TObj t = true /\ read_term [] (wt_term always [] t ++ rest) <> Some (t, rest)).
+
+(* non-vacuity of (6).  pm: ex -> http://e/ns/ , (empty) -> http://e/ , a.b -> http://e/ns/sub# ;
+   term << _:b.1 ex:p%20q << :x a.b:y "1.5"^^xsd:decimal >> >>  followed by ".\n" *)
+Definition ex_ns : str := [104;116;116;112;58;47;47;101;47].                 (* http://e/ *)
+Definition ex_pm : list (str * str) :=
+  [([101;120], ex_ns ++ [110;115;47]); ([], ex_ns); ([97;46;98], ex_ns ++ [110;115;47;115;117;98;35])].
+Definition ex_term : term :=
+  Triple (Bnode [98;46;49]) (Iri (ex_ns ++ [110;115;47;112;37;50;48;113]))
+         (Triple (Iri (ex_ns ++ [120])) (Iri (ex_ns ++ [110;115;47;115;117;98;35;121])) (LitDt [49;46;53] xsd_decimal)).
+Example term_example :
+  pm_ok ex_pm = true /\ wf_at TObj ex_term = true /\ stop_ok [46; 10] = true /\
+  (* << _:b.1 ex:p%20q << :x a.b:y 1.5 >> >> *)
+  wt_term Sophia.C09.Model.iri_new_ok ex_pm ex_term =
+    [60;60;32; 95;58;98;46;49; 32; 101;120;58;112;37;50;48;113; 32; 60;60;32; 58;120; 32; 97;46;98;58;121; 32; 49;46;53; 32;62;62; 32;62;62] /\
+  read_term ex_pm (wt_term Sophia.C09.Model.iri_new_ok ex_pm ex_term ++ [46; 10]) = Some (ex_term, [46; 10]).
+Proof. vm_compute. repeat split; reflexivity. Qed.
+(* the continuations the writer produces are admissible; a few that are not *)
+Example stop_examples :
+  forallb stop_ok [[]; [32; 97; 32]; [10; 32; 32]; [44; 10]; [59; 10]; [46; 10]; [93]; [10; 41]; [32; 123; 124]; [32; 62; 62]] = true /\
+  forallb (fun r => negb (stop_ok r)) [[50]; [58]; [46; 53]; [32; 64; 101; 110]; [10; 94; 94; 60]] = true.
+Proof. vm_compute. split; reflexivity. Qed.
+(* an IRI accepted by sophia_iri (the regenerated regular expression of C09) with non-ASCII characters passes iri_ok;
+   strings with a character excluded by IRIREF do not *)
+Example iri_ok_examples :
+  let i := ex_ns ++ [233; 47; 128512; 63; 113; 61; 37; 52; 49; 35; 102] in   (* http://e/e-acute/emoji?q=%41#f *)
+  Sophia.C09.Model.iri_new_ok i = true /\ iri_ok i = true /\ iri_ok [97; 32; 98] = false /\ iri_ok [97; 62] = false /\ iri_ok [92] = false.
+Proof. vm_compute. repeat split; reflexivity. Qed.
+
 Print Assumptions Incl.integer_re_incl.
 Print Assumptions Incl.decimal_re_incl.
 Print Assumptions Incl.double_re_incl.
@@ -140,3 +228,32 @@ Print Assumptions prefix_decimal_refuted.
 Print Assumptions prefix_double_refuted.
 Print Assumptions cycle_detection_old_refuted.
 Print Assumptions list_item_old_refuted.
+Print Assumptions longest_ok.
+Print Assumptions longest_none.
+Print Assumptions TermShapes.pname_esc10.
+Print Assumptions TermShapes.pname_enddot.
+Print Assumptions TermShapes.pname_colon.
+Print Assumptions TermShapes.boolean_words.
+Print Assumptions numeric_cut.
+Print Assumptions label_cut.
+Print Assumptions pname_cut.
+Print Assumptions keyword_not_pname.
+Print Assumptions read_pname_ok.
+Print Assumptions read_plain_iri.
+Print Assumptions read_bare.
+Print Assumptions read_literal_dt.
+Print Assumptions read_literal_lang.
+Print Assumptions read_wt.
+Print Assumptions read_term_write_term.
+Print Assumptions term_roundtrip.
+Print Assumptions wr_term_utf8.
+Print Assumptions read_bytes_write_term.
+Print Assumptions variable_rejected.
+Print Assumptions duplicate_prefix_refuted.
+Print Assumptions unchecked_iri_refuted.
+Print Assumptions bad_continuation_refuted.
+Print Assumptions checked_langtag_refuted.
+Print Assumptions langtag_sophia.
+Print Assumptions term_example.
+Print Assumptions stop_examples.
+Print Assumptions iri_ok_examples.
